@@ -140,6 +140,7 @@ class Ctx:
             "set_eq": lambda a, b: set(a) == set(b),
             "subset": lambda a, b: set(a) <= set(b),
             "seq_eq": lambda a, b: list(a) == list(b),
+            "same": lambda a, b: a == b,
             "distinct": lambda *a: len(set(map(id, a))) == len(a),
             "__old": olds or [],
         }
